@@ -103,6 +103,7 @@ def build_smt2(vc: VC, congruence: bool = True, max_fact_size: int | None = None
     if max_fact_size is None and congruence:
         vc.n_dens = len(enc.dens)
         vc.meta["apps"] = enc.app_names()
+        vc.meta["app_terms"] = dict(enc.app_terms)
         vc.meta["index_consts"] = enc.index_constants()
     return s.to_smt2()
 
@@ -346,6 +347,7 @@ def discharge(vcs: list, second_opinion: bool = False, timeout_ms: int | None = 
     for name, verdict, backend, model, secs, detail in results:
         vc = byname[name]
         names = vc.meta.get("apps", {})
+        vc.meta["raw_model"] = dict(model)
         model = {names.get(k, k): v for k, v in model.items()}
         vc.verdict, vc.backend, vc.model, vc.seconds, vc.detail = verdict, backend, model, secs, detail
 
